@@ -223,7 +223,7 @@ func GenSched(r *sim.Rand, tier string) sim.Script {
 			}
 		} else {
 			for c := 1 + r.Intn(5); c > 0; c-- {
-				k := []string{"sget", "sget", "qget", "bget"}[r.Intn(4)]
+				k := []string{"sget", "sget", "qget", "bget", "sget", "qget", "bget", "bgetc"}[r.Intn(8)]
 				ops = append(ops, Op{K: k, B: r.Intn(nb), Y: fmt.Sprintf("k%d", r.Intn(nKeys))})
 			}
 		}
